@@ -20,6 +20,7 @@ import FendModel.Model.Root
 import FendModel.Model.Parser
 import FendModel.Model.Scope
 import FendModel.Model.Elementary
+import FendModel.Model.Interrupt
 
 open Fend Fend.Proto
 
@@ -631,6 +632,20 @@ def elemLine (line : String) : String :=
     | none => "bad-op"
   | _ => "bad-op"
 
+/-- `<polls of the uninterrupted run> <k|never> <stores before each poll, comma separated counts or ->`:
+a synthetic trace with that many polls; the answer is the outcome, the polls made and the number of stores done -/
+def intrLine (line : String) : String :=
+  match line.trimAscii.toString.splitOn " " with
+  | [n, k] =>
+    match n.toNat? with
+    | some n =>
+      let fireAt := if k = "never" then n + 1 else k.toNat?.getD (n + 1)
+      let trace : List Fend.Intr.Ev := (List.range n).flatMap fun i => [.work 1, .poll, .store "v" (Int.ofNat i)]
+      let (o, polls, vars, _) := Fend.Intr.run fireAt trace 0 []
+      (match o with | .finished => "finished" | .interrupted => "interrupted") ++ s!" polls={polls} stores={vars.length}"
+    | none => "bad-op"
+  | _ => "bad-op"
+
 partial def loop (h : IO.FS.Stream) (out : IO.FS.Stream) (f : String → String) : IO Unit := do
   let line ← h.getLine
   if line.isEmpty then return ()
@@ -661,6 +676,7 @@ def main (args : List String) : IO UInt32 := do
   | ["parse"] => loop stdin stdout parseLine; return 0
   | ["scope"] => loop stdin stdout scopeLine; return 0
   | ["elem"] => loop stdin stdout elemLine; return 0
+  | ["intr"] => loop stdin stdout intrLine; return 0
   | ["numlit"] => loop stdin stdout numlitLine; return 0
   | ["clirun"] => loop stdin stdout clirunLine; return 0
   | _ => IO.eprintln "usage: fend_model_driver <stream>"; return 2
